@@ -25,9 +25,10 @@ def nesting_stratum(ctx, d, n):
     from jv import dsl, listing as L
     rng = ctx.rng
     ops3 = ["$and_any_order", "$and", "$or"]
-    for _ in range(n):
-        level = rng.choice(["instruction", "operand"])
-        outer, inner = rng.choice(ops3), rng.choice(ops3)
+    # every (level, outer, inner) combination is visited at every seed, several times with different elements
+    combos = [(lv, o, i) for lv in ("instruction", "operand") for o in ops3 for i in ops3]
+    for j in range(n):
+        level, outer, inner = combos[(ctx.shard + j * ctx.nshards) % len(combos)]
         if level == "instruction":
             a, b, c = rng.sample(["push", "pop", "call", "ret", "leave", "nop", "inc", "dec"], 3)
             insts, addr = [], 0x401000
